@@ -2,6 +2,7 @@ package checks
 
 import (
 	"fmt"
+	"go/types"
 	"os"
 	"strings"
 
@@ -31,6 +32,8 @@ type runSem struct {
 	leak       []string // violations of 'no goroutine left behind'
 	race       []string // unsynchronised accesses
 	notes      []string
+	okSelects  map[string]bool // positions of blocking selects accepted as part of a verified watcher
+	syncCalls  map[string]bool // library calls (sync.WaitGroup ...) modelled as part of the hand-off
 	steps      int
 	returns    map[string]int
 }
@@ -61,7 +64,7 @@ func runSemPass(cx *Ctx, carried []absint.CarriedLoc) (*runSem, []absint.Carried
 }
 
 func runSemPass1(cx *Ctx, carried []absint.CarriedLoc) (rs *runSem, changed []absint.CarriedLoc) {
-	rs = &runSem{returns: map[string]int{}}
+	rs = &runSem{returns: map[string]int{}, okSelects: map[string]bool{}, syncCalls: map[string]bool{}}
 	defer func() {
 		if x := recover(); x != nil {
 			rs = &runSem{err: fmt.Errorf("analyzer panic in the Run summary: %v", x), returns: map[string]int{}}
@@ -146,6 +149,26 @@ func runSemPass1(cx *Ctx, carried []absint.CarriedLoc) (rs *runSem, changed []ab
 	// "" for a go statement, or the context the function was registered on with
 	// context.AfterFunc (it then starts only once that context is done: no
 	// goroutine exists while waiting, so nothing is left behind).
+	// what is known of a goroutine after its function has been interpreted
+	type watcherInfo struct {
+		pos             string
+		goGuard         bdd.Node
+		goroutine       bool                // started with a go statement (not registered with AfterFunc)
+		releaseByCancel bool                // ends when the derived context is cancelled
+		release         []string            // channels whose close ends it
+		closes          map[string]bdd.Node // channels it closes, with the paths on which it does
+		wgDone          map[string]bdd.Node // WaitGroups it signals
+		selects         []string
+		seenCancel      bdd.Node            // the paths on which it has seen the context done
+		sawPub          bool                // it publishes with an atomic store
+		storeAfterClose map[string]string   // channels closed before a plain store to a shared cell (position of the store)
+		sends           map[string]bdd.Node // channels it sends the context's error on, with the paths
+		sendPos         []string
+	}
+	ctxChans := map[string]bool{} // channels on which only the context's error is ever sent
+	sentVals := map[string][]absint.Value{}
+	polled := map[string]string{} // channels Run polls without blocking (position of the first poll)
+	var watchers []*watcherInfo
 	var analyseWatcher func(in *absint.Interp, fv *absint.FuncV, args []absint.Value, guard bdd.Node, st *absint.State, pos, registeredOn string)
 	in.OnGo = func(in *absint.Interp, fv *absint.FuncV, args []absint.Value, guard bdd.Node, st *absint.State, pos string) {
 		tr.Emit(guard, "go", "", nil, 0, pos)
@@ -157,20 +180,51 @@ func runSemPass1(cx *Ctx, carried []absint.CarriedLoc) (rs *runSem, changed []ab
 	}
 	analyseWatcher = func(in *absint.Interp, fv *absint.FuncV, args []absint.Value, guard bdd.Node, st *absint.State, pos, registeredOn string) {
 		rs.hasWatcher = true
+		// everything the goroutine can reach from what it captures or is handed: the
+		// cells themselves and the objects the pointers in them lead to
+		var reach func(v absint.Value, depth int)
+		reach = func(v absint.Value, depth int) {
+			switch x := v.(type) {
+			case *absint.MuxV:
+				reach(x.A, depth)
+				reach(x.B, depth)
+			case *absint.Struct:
+				for _, f := range x.Fields {
+					reach(f, depth)
+				}
+			case *absint.Ptr:
+				if x.Root == "cpu" || strings.HasPrefix(x.Root, "*") {
+					// the CPU handed to the goroutine directly; when it is merely reachable
+					// (through a session object that holds it) what counts is whether the
+					// goroutine touches it: judged below on what it loads and stores
+					if depth == 0 {
+						rs.watch = append(rs.watch, pos+": the goroutine captures the CPU (or something reached from it)")
+					}
+					return
+				}
+				if !strings.HasPrefix(x.Root, "alloc#") || shared[x.Root] != "" || depth > 6 {
+					return
+				}
+				shared[x.Root] = "cell"
+				in.WatchStores[x.Root] = true
+				for _, k := range st.Keys() {
+					if r, p := absint.SplitKey(k); r == x.Root {
+						if cv, ok := st.Get(r, p); ok {
+							reach(cv, depth+1)
+						}
+					}
+				}
+			}
+		}
 		for _, b := range append(append([]absint.Value{}, fv.Bindings...), args...) {
-			if p, ok := b.(*absint.Ptr); ok && strings.HasPrefix(p.Root, "alloc#") {
-				shared[p.Root] = "cell"
-				in.WatchStores[p.Root] = true
-			}
-			if p, ok := b.(*absint.Ptr); ok && (p.Root == "cpu" || strings.HasPrefix(p.Root, "*")) {
-				rs.watch = append(rs.watch, pos+": the goroutine captures the CPU (or something reached from it)")
-			}
+			reach(b, 0)
 		}
 		// the goroutine's own behaviour: interpreted on a scratch trace
 		saved := in.T
 		wst := st.Clone()
 		wt := dom.NewTrace(c)
 		in.T = wt
+		in.TouchLog = map[string]bool{}
 		func() {
 			defer func() {
 				if x := recover(); x != nil {
@@ -180,49 +234,175 @@ func runSemPass1(cx *Ctx, carried []absint.CarriedLoc) (rs *runSem, changed []ab
 			in.ProbeBound(fv, args, guard, wst)
 		}()
 		in.T = saved
-
-		var sawRecv, sawPub bool
-		if registeredOn != "" {
-			sawRecv = true
-		}
-		for i := range wt.Events {
-			e := &wt.Events[i]
-			switch e.Kind {
-			case "chan.recv":
-				if sawRecv {
-					rs.watch = append(rs.watch, e.Pos+": a second blocking receive in the goroutine")
-				}
-				sawRecv = true
-				if e.Dev != "ctx.derived" {
-					rs.leak = append(rs.leak, e.Pos+": the goroutine waits on Done() of "+e.Dev+", not of the context Run derives and cancels on return: it outlives Run when the caller never cancels")
-				}
-				if sawPub {
-					rs.watch = append(rs.watch, e.Pos+": the goroutine publishes before it has seen the cancellation")
-				}
-			case "shared.store":
-				if !sawRecv {
-					rs.watch = append(rs.watch, e.Pos+": the goroutine writes a shared cell before the context is done")
-				}
-				if sawPub {
-					rs.race = append(rs.race, e.Pos+": a shared cell is written after the flag was published: Run can read it before it is written (data race)")
-				}
-				plainStored[e.Dev] = true
-			case "atomic.store":
-				sawPub = true
-				published[e.Dev] = true
-			case "atomic.store-pointer":
-				sawPub = true
-				published[e.Dev] = true
-			case "atomic.store-pointer-bad":
-				sawPub = true
-				published[e.Dev] = true
-				rs.watch = append(rs.watch, e.Pos+": what the published pointer points at is not (yet) the Err() of the caller's or the derived context")
-			case "atomic.store-zero":
-				rs.watch = append(rs.watch, e.Pos+": the goroutine stores 0 into the flag (never observed as cancelled)")
+		for root := range in.TouchLog {
+			if root == "cpu" || strings.HasPrefix(root, "*") && !strings.HasPrefix(root, "*atomic.Pointer") {
+				rs.watch = append(rs.watch, pos+": the goroutine reads or writes the CPU (or something reached from it: "+root+") while Run is stepping it")
 			}
 		}
+		in.TouchLog = nil
+
+		M := c.M
+		w := &watcherInfo{pos: pos, goGuard: guard, goroutine: registeredOn == "", closes: map[string]bdd.Node{}, wgDone: map[string]bdd.Node{}, storeAfterClose: map[string]string{}, sends: map[string]bdd.Node{}}
+		watchers = append(watchers, w)
+		seenCancel := bdd.False // the paths on which the goroutine has seen the context done
+		blocked := bdd.False    // the paths that have blocked once
+		pubGuard := bdd.False   // the paths on which the cancellation has been published
+		if registeredOn != "" {
+			seenCancel, blocked = guard, guard
+		}
+		overlaps := func(a, b bdd.Node) bool { return M.And(a, b) != bdd.False }
+		for i := range wt.Events {
+			e := &wt.Events[i]
+			if os.Getenv("VERIF_DEBUG") != "" {
+				fmt.Fprintf(os.Stderr, "watcher event: %s %s at %s\n", e.Kind, e.Dev, e.Pos)
+			}
+			switch e.Kind {
+			case "chan.recv":
+				if overlaps(e.Guard, blocked) {
+					rs.watch = append(rs.watch, e.Pos+": a second blocking receive in the goroutine")
+				}
+				blocked = M.Or(blocked, e.Guard)
+				switch {
+				case strings.HasPrefix(e.Dev, "chan#"):
+					rs.watch = append(rs.watch, e.Pos+": the goroutine waits on a channel that is not a context's Done (outside the protocol)")
+				case e.Dev == "ctx.derived":
+					seenCancel = M.Or(seenCancel, e.Guard)
+					w.releaseByCancel = true
+				case !callersCtx(e.Dev):
+					rs.watch = append(rs.watch, e.Pos+": the goroutine waits on Done() of "+e.Dev+", which is not the caller's context (or derived from it): the caller's cancellation is never seen")
+				default:
+					seenCancel = M.Or(seenCancel, e.Guard)
+					rs.leak = append(rs.leak, e.Pos+": the goroutine waits on Done() of "+e.Dev+", not of the context Run derives and cancels on return: it outlives Run when the caller never cancels")
+				}
+				if overlaps(e.Guard, pubGuard) {
+					rs.watch = append(rs.watch, e.Pos+": the goroutine publishes before it has seen the cancellation")
+				}
+			case "select":
+				// select { case <-done: publish; case <-quit: } : the first alternative
+				// is the cancellation, the others end the goroutine when Run is over
+				if overlaps(e.Guard, blocked) {
+					rs.watch = append(rs.watch, e.Pos+": a second blocking receive in the goroutine")
+				}
+				blocked = M.Or(blocked, e.Guard)
+				names := strings.Split(e.Dev, ",")
+				idx := e.Args[0]
+				nCancel, nRelease := 0, 0
+				for k, n := range names {
+					gk := M.And(e.Guard, c.Eq(idx, c.Const(len(idx), uint64(k))))
+					switch {
+					case strings.HasPrefix(n, "done:") && !callersCtx(strings.TrimPrefix(n, "done:")):
+						rs.watch = append(rs.watch, e.Pos+": the goroutine waits on Done() of "+strings.TrimPrefix(n, "done:")+", which is not the caller's context (or derived from it)")
+					case strings.HasPrefix(n, "done:"):
+						nCancel++
+						seenCancel = M.Or(seenCancel, gk)
+						if strings.TrimPrefix(n, "done:") == "ctx.derived" {
+							w.releaseByCancel = true
+							nRelease++
+						}
+					case strings.HasPrefix(n, "chan#"):
+						w.release = append(w.release, n)
+						nRelease++
+					}
+				}
+				if nCancel == 0 {
+					rs.watch = append(rs.watch, e.Pos+": none of the channels the goroutine waits on is a context's Done")
+				}
+				if nRelease == 0 {
+					rs.leak = append(rs.leak, e.Pos+": the goroutine waits on the caller's context only: it outlives Run when the caller never cancels")
+				}
+				w.selects = append(w.selects, e.Pos)
+			case "shared.store":
+				if overlaps(e.Guard, M.Not(seenCancel)) {
+					rs.watch = append(rs.watch, e.Pos+": the goroutine writes a shared cell before the context is done")
+				}
+				if overlaps(e.Guard, pubGuard) {
+					rs.race = append(rs.race, e.Pos+": a shared cell is written after the flag was published: Run can read it before it is written (data race)")
+				}
+				for dev, g := range w.closes {
+					if overlaps(e.Guard, g) {
+						w.storeAfterClose[dev] = e.Pos
+					}
+				}
+				plainStored[e.Dev] = true
+			case "atomic.store", "atomic.store-pointer", "atomic.store-pointer-bad":
+				if overlaps(e.Guard, M.Not(seenCancel)) {
+					rs.watch = append(rs.watch, e.Pos+": the goroutine publishes a cancellation on a path on which it has not seen the context done")
+				}
+				pubGuard = M.Or(pubGuard, e.Guard)
+				published[e.Dev] = true
+				if e.Kind == "atomic.store-pointer-bad" {
+					rs.watch = append(rs.watch, e.Pos+": what the published pointer points at is not (yet) the Err() of the caller's or the derived context")
+				}
+			case "atomic.store-zero":
+				rs.watch = append(rs.watch, e.Pos+": the goroutine stores 0 into the flag (never observed as cancelled)")
+			case "chan.close":
+				if overlaps(e.Guard, w.closes[e.Dev]) {
+					rs.watch = append(rs.watch, e.Pos+": the goroutine can close "+e.Dev+" twice (panic)")
+				}
+				w.closes[e.Dev] = M.Or(w.closes[e.Dev], e.Guard)
+			case "wg.done":
+				if overlaps(e.Guard, w.wgDone[e.Dev]) {
+					rs.watch = append(rs.watch, e.Pos+": the goroutine can signal the WaitGroup twice (negative counter: panic)")
+				}
+				w.wgDone[e.Dev] = M.Or(w.wgDone[e.Dev], e.Guard)
+			case "chan.send":
+				// the context's error posted on a buffered channel of the code's own (one
+				// send per path into a buffer nobody else fills: it cannot block)
+				info := in.Chans[e.Dev]
+				var sent absint.Value
+				if vs := sentVals[e.Dev]; len(vs) > 0 {
+					sent, sentVals[e.Dev] = vs[0], vs[1:]
+				}
+				switch {
+				case info == nil || info.Cap < 1:
+					rs.watch = append(rs.watch, e.Pos+": the goroutine sends on an unbuffered channel: it blocks (and is left behind) when Run has returned for another reason")
+				case overlaps(e.Guard, w.sends[e.Dev]):
+					rs.watch = append(rs.watch, e.Pos+": the goroutine can send twice on "+e.Dev+" (the second send blocks)")
+				case overlaps(e.Guard, M.Not(seenCancel)):
+					rs.watch = append(rs.watch, e.Pos+": the goroutine posts a cancellation on a path on which it has not seen the context done")
+				case sent == nil || !isCtxErr(sent):
+					rs.watch = append(rs.watch, e.Pos+": what the goroutine sends is not the Err() of the caller's or the derived context")
+					ctxChans[e.Dev] = false
+				default:
+					if _, seen := ctxChans[e.Dev]; !seen {
+						ctxChans[e.Dev] = true
+					}
+				}
+				for _, g := range w.closes {
+					if overlaps(e.Guard, g) {
+						rs.watch = append(rs.watch, e.Pos+": send after a close in the goroutine (outside the protocol)")
+					}
+				}
+				w.sends[e.Dev] = M.Or(w.sends[e.Dev], e.Guard)
+				w.sendPos = append(w.sendPos, e.Pos)
+			case "wg.add", "wg.wait", "go":
+				rs.watch = append(rs.watch, e.Pos+": "+e.Kind+" in the goroutine (outside the protocol)")
+			}
+		}
+		sawRecv := seenCancel != bdd.False
+		sawPub := pubGuard != bdd.False
+		w.seenCancel, w.sawPub = seenCancel, sawPub
+		if sawPub && overlaps(seenCancel, M.Not(pubGuard)) {
+			rs.watch = append(rs.watch, pos+": on some path the goroutine sees the context done and does not publish it")
+		}
+		// what the goroutine leaves in the plainly written cells is the context's
+		// error - on every path that publishes
+		var errUnder func(v absint.Value, g bdd.Node) bool
+		errUnder = func(v absint.Value, g bdd.Node) bool {
+			if g == bdd.False {
+				return true
+			}
+			if mv, ok := v.(*absint.MuxV); ok {
+				return errUnder(mv.A, M.And(g, mv.P)) && errUnder(mv.B, M.And(g, M.Not(mv.P)))
+			}
+			return isCtxErr(v)
+		}
 		for cell := range plainStored {
-			if v, ok := wst.Get(cell, ""); !ok || !isCtxErr(v) {
+			root, path := cell, ""
+			if i := strings.IndexByte(cell, '|'); i >= 0 {
+				root, path = cell[:i], cell[i+1:]
+			}
+			if v, ok := wst.Get(root, path); !ok || !errUnder(v, M.And(seenCancel, pubGuard)) {
 				rs.watch = append(rs.watch, "the value the goroutine leaves in "+cell+" is not the Err() of the caller's or the derived context")
 			}
 		}
@@ -236,11 +416,61 @@ func runSemPass1(cx *Ctx, carried []absint.CarriedLoc) (rs *runSem, changed []ab
 		if !sawRecv {
 			rs.watch = append(rs.watch, pos+": the goroutine does not wait for the context")
 		}
-		if !sawPub {
-			rs.watch = append(rs.watch, pos+": the goroutine never publishes the cancellation with an atomic store")
-		}
+		// (a goroutine that publishes by closing a channel Run polls is judged when
+		// Run has been interpreted: see below)
 	}
-	in.OnPoll = func(dev string) bdd.Node { return c.Atom(fresh("ctx.Done-ready"), 1)[0] }
+	in.OnPoll = func(dev string) bdd.Node {
+		if !callersCtx(dev) {
+			rs.violations = append(rs.violations, "Run polls Done() of "+dev+", which is not the caller's context (or derived from it)")
+			return c.Atom(fresh("foreign.Done-ready"), 1)[0]
+		}
+		return c.Atom(fresh("ctx.Done-ready"), 1)[0]
+	}
+	in.OnOpaqueCall = func(in *absint.Interp, why string, args []absint.Value, guard bdd.Node, st *absint.State, pos string) (absint.Value, bool) {
+		if why != "cancel" {
+			return nil, false
+		}
+		if in.InDeferred() {
+			// the CancelFunc called from a deferred closure: as good as deferring it
+			in.T.Emit(guard, "deferred:cancel", "", nil, 0, pos)
+		} else {
+			rs.watch = append(rs.watch, pos+": the derived context's CancelFunc is called while Run is still going (outside the protocol: the goroutine would report a cancellation the caller never asked for)")
+		}
+		return nil, true
+	}
+	in.Chans = map[string]*absint.ChanInfo{}
+	in.OnSelect = func(devs []string, guard bdd.Node, pos string) dom.BV {
+		// which alternative is taken is a fresh choice; values beyond the last
+		// alternative stand for the first one
+		bits := 1
+		for 1<<uint(bits) < len(devs) {
+			bits++
+		}
+		a := c.Atom(fresh("select"), bits)
+		w := in.IntWidth()
+		idx := c.Zext(a, w)
+		if 1<<uint(bits) != len(devs) {
+			idx = c.Mux(c.Lt(idx, c.Const(w, uint64(len(devs))), false), idx, c.Const(w, 0))
+		}
+		return idx
+	}
+	in.OnPollChan = func(dev string, guard bdd.Node, pos string) bdd.Node {
+		if _, seen := polled[dev]; !seen {
+			polled[dev] = pos
+		}
+		atomLoaded[dev] = true
+		return c.Atom(fresh("chan-ready("+dev+")"), 1)[0]
+	}
+	in.OnSend = func(dev string, v absint.Value, guard bdd.Node, st *absint.State, pos string) {
+		sentVals[dev] = append(sentVals[dev], v)
+	}
+	in.OnRecv = func(dev string, t types.Type, guard bdd.Node, pos string) absint.Value {
+		if _, isIface := t.Underlying().(*types.Interface); isIface {
+			n := fresh("recv(" + dev + ")")
+			return &absint.Iface{Sym: n, Nil: c.Atom("IsNil("+n+")", 1)[0]}
+		}
+		return in.SymbolicValue(t, fresh("recv("+dev+")"))
+	}
 	in.SharedRoots = map[string]bool{}
 	in.WatchStores = map[string]bool{}
 	in.SharedLoad = func(root, path string, w int) absint.Value {
@@ -279,10 +509,22 @@ func runSemPass1(cx *Ctx, carried []absint.CarriedLoc) (rs *runSem, changed []ab
 		}
 		return "?"
 	}
+	lastObs := map[string]bdd.Node{}
 	atomicLoad := func(w int) absint.ModelFunc {
 		return func(in *absint.Interp, args []absint.Value, guard bdd.Node, st *absint.State, pos string) (absint.Value, bool) {
-			atomLoaded[cellOf(args[0])] = true
-			return c.Atom(fresh("atomic.Load"), w), true
+			cell := cellOf(args[0])
+			atomLoaded[cell] = true
+			v := c.Atom(fresh("atomic.Load"), w)
+			if w == 1 {
+				// a boolean flag that is only ever set (a store of false by the goroutine
+				// or any store by Run after the goroutine started is reported): once it
+				// has been seen set, every later load sees it set
+				if prev, ok := lastObs[cell]; ok {
+					v = dom.BV{c.M.Or(v[0], prev)}
+				}
+				lastObs[cell] = v[0]
+			}
+			return v, true
 		}
 	}
 	atomicStore := func(in *absint.Interp, args []absint.Value, guard bdd.Node, st *absint.State, pos string) (absint.Value, bool) {
@@ -316,19 +558,53 @@ func runSemPass1(cx *Ctx, carried []absint.CarriedLoc) (rs *runSem, changed []ab
 			if !ok || !ok2 || iv.Sym == "" {
 				return nil, false
 			}
+			if !callersCtx(iv.Sym) {
+				rs.watch = append(rs.watch, pos+": context.AfterFunc on a context that is not the caller's (or derived from it)")
+			}
 			tr.Emit(guard, "afterfunc", iv.Sym, nil, 0, pos)
 			analyseWatcher(in, fv, nil, guard, st, pos, iv.Sym)
 			return &absint.Opaque{Why: "afterfunc-stop"}, true
 		},
 		"context.WithCancel": func(in *absint.Interp, args []absint.Value, guard bdd.Node, st *absint.State, pos string) (absint.Value, bool) {
-			return &absint.Tuple{Elems: []absint.Value{&absint.Iface{Sym: "ctx.derived", Nil: bdd.False}, &absint.Opaque{Why: "cancel"}}}, true
+			// derived from the caller's context (directly or through another derived
+			// one) - anything else does not see the caller's cancellation
+			sym := "ctx.foreign"
+			if iv, ok := args[0].(*absint.Iface); ok && callersCtx(iv.Sym) {
+				sym = "ctx.derived"
+			} else {
+				rs.watch = append(rs.watch, pos+": context.WithCancel of a context that is not the caller's (or derived from it): the caller's cancellation does not reach it")
+			}
+			return &absint.Tuple{Elems: []absint.Value{&absint.Iface{Sym: sym, Nil: bdd.False}, &absint.Opaque{Why: "cancel"}}}, true
 		},
 		"sync/atomic.LoadInt32": atomicLoad(32), "sync/atomic.LoadUint32": atomicLoad(32), "sync/atomic.LoadInt64": atomicLoad(64),
 		"(*sync/atomic.Bool).Load":  atomicLoad(1),
 		"(*sync/atomic.Int32).Load": atomicLoad(32),
 		"sync/atomic.StoreInt32":    atomicStore, "sync/atomic.StoreUint32": atomicStore, "sync/atomic.StoreInt64": atomicStore,
 		"(*sync/atomic.Bool).Store": atomicStore, "(*sync/atomic.Int32).Store": atomicStore,
+		"(*sync/atomic.Uint32).Load": atomicLoad(32), "(*sync/atomic.Uint32).Store": atomicStore,
+		"(*sync/atomic.Int64).Load": atomicLoad(64), "(*sync/atomic.Int64).Store": atomicStore,
+		"(*sync/atomic.Uint64).Load": atomicLoad(64), "(*sync/atomic.Uint64).Store": atomicStore,
+		"sync/atomic.LoadUint64": atomicLoad(64), "sync/atomic.StoreUint64": atomicStore,
 		"(*sync/atomic.Pointer).Store": atomicStore,
+		"(*sync.WaitGroup).Add": func(in *absint.Interp, args []absint.Value, guard bdd.Node, st *absint.State, pos string) (absint.Value, bool) {
+			d, ok := args[1].(dom.BV)
+			if !ok {
+				return nil, false
+			}
+			rs.syncCalls["(*sync.WaitGroup).Add"] = true
+			in.T.Emit(guard, "wg.add", cellOf(args[0]), []dom.BV{d}, 0, pos)
+			return nil, true
+		},
+		"(*sync.WaitGroup).Done": func(in *absint.Interp, args []absint.Value, guard bdd.Node, st *absint.State, pos string) (absint.Value, bool) {
+			rs.syncCalls["(*sync.WaitGroup).Done"] = true
+			in.T.Emit(guard, "wg.done", cellOf(args[0]), nil, 0, pos)
+			return nil, true
+		},
+		"(*sync.WaitGroup).Wait": func(in *absint.Interp, args []absint.Value, guard bdd.Node, st *absint.State, pos string) (absint.Value, bool) {
+			rs.syncCalls["(*sync.WaitGroup).Wait"] = true
+			in.T.Emit(guard, "wg.wait", cellOf(args[0]), nil, 0, pos)
+			return nil, true
+		},
 		"(*sync/atomic.Pointer).Load": func(in *absint.Interp, args []absint.Value, guard bdd.Node, st *absint.State, pos string) (absint.Value, bool) {
 			atomLoaded[cellOf(args[0])] = true
 			n := fresh("atomic.Pointer")
@@ -339,8 +615,12 @@ func runSemPass1(cx *Ctx, carried []absint.CarriedLoc) (rs *runSem, changed []ab
 	}
 	in.OnInvoke = func(in *absint.Interp, kind, dev string, args []absint.Value, guard bdd.Node, st *absint.State, pos string) (absint.Value, bool) {
 		switch {
-		case strings.HasSuffix(kind, ".Err"):
+		case strings.HasSuffix(kind, ".Err") && callersCtx(dev):
 			return ctxErrVal(), true
+		case strings.HasSuffix(kind, ".Err"):
+			// the error of some other context: not what Run has to return
+			n := fresh("foreign.Err")
+			return &absint.Iface{Sym: n, Nil: c.Atom("IsNil("+n+")", 1)[0]}, true
 		case strings.HasSuffix(kind, ".Done"):
 			return &absint.Opaque{Why: "done:" + dev}, true
 		}
@@ -393,6 +673,9 @@ func runSemPass1(cx *Ctx, carried []absint.CarriedLoc) (rs *runSem, changed []ab
 			case x.Sym == "ErrBreakPoint":
 				pBP = M.Or(pBP, non)
 				pNil = M.Or(pNil, nilc)
+			case strings.HasPrefix(x.Sym, "recv(") && ctxChans[x.Sym[len("recv("):strings.Index(x.Sym, ")")]]:
+				// received from a channel on which the goroutine posts the context's error only
+				pCtx = M.Or(pCtx, pred)
 			case strings.HasPrefix(x.Sym, "ctx.Err") || strings.HasPrefix(x.Sym, "shared("):
 				// the context's error as published by the watcher, or read directly;
 				// returning it while it is still nil would be 'return nil'
@@ -406,8 +689,15 @@ func runSemPass1(cx *Ctx, carried []absint.CarriedLoc) (rs *runSem, changed []ab
 			pOther = M.Or(pOther, pred)
 		}
 	}
+	// (when the loop is in a function Run calls, the paths of that function are
+	// merged at its return and the caller goes on under its own predicate: the
+	// region in which the iteration goes round again is no return)
+	notBack := M.Not(ls.BackPred)
 	for _, r := range in.TopReturns {
-		classify(r.Val, r.Pred)
+		if os.Getenv("VERIF_DEBUG") != "" {
+			fmt.Fprintf(os.Stderr, "top return: %s\n", absint.DescribeValue(c, r.Val))
+		}
+		classify(r.Val, M.And(r.Pred, notBack))
 	}
 	// events
 	gStep := bdd.False
@@ -504,12 +794,14 @@ func runSemPass1(cx *Ctx, carried []absint.CarriedLoc) (rs *runSem, changed []ab
 	notCancel := M.And(M.And(entry, M.Not(cancel)), M.Not(preExit)) // = the iteration Steps
 	for _, a := range c.AtomsIn(cancel) {
 		obs := false
-		for _, pre := range []string{"atomic.Load@", "shared(", "ctx.Err@", "atomic.Pointer@", "ctx.Done-ready@", "IsNil(ctx.Err@", "IsNil(shared(", "IsNil(atomic.Pointer@"} {
+		for _, pre := range []string{"atomic.Load@", "shared(", "ctx.Err@", "atomic.Pointer@", "ctx.Done-ready@", "chan-ready(", "IsNil(recv(", "IsNil(ctx.Err@", "IsNil(shared(", "IsNil(atomic.Pointer@"} {
 			if strings.HasPrefix(a, pre) {
 				obs = true
 			}
 		}
 		switch {
+		case strings.HasPrefix(a, "IsNil(done:"):
+			// a context whose Done() is nil can never be cancelled: nothing to observe
 		case strings.HasPrefix(a, "loop1.mem("):
 			// a header test may come before the cancellation test (for !cpu.HALT { poll }): judged just below
 		case strings.HasPrefix(a, "PostStep") || strings.HasPrefix(a, "Init("):
@@ -546,6 +838,48 @@ func runSemPass1(cx *Ctx, carried []absint.CarriedLoc) (rs *runSem, changed []ab
 	say(M.Xor(nilEff, M.And(gStep, M.And(M.Not(bpPresent), halt))), "nil must be returned exactly when the Step of this iteration executed HALT and PC is not a breakpoint")
 	say(M.Xor(contEff, M.And(gStep, M.And(M.Not(bpPresent), M.Not(halt)))), "the loop must continue exactly when the Step hit no breakpoint and executed no HALT")
 	say(othEff, "Run returns something other than nil, ErrBreakPoint or the context's error")
+	// publication by closing a channel Run polls: the close happens on exactly the
+	// paths that saw the context done, after the plain stores
+	for _, w := range watchers {
+		pubByClose := false
+		for dev, pos := range polled {
+			g, closesIt := w.closes[dev]
+			if gs, sendsIt := w.sends[dev]; sendsIt && !closesIt {
+				g, closesIt = gs, true
+			}
+			if !closesIt {
+				continue
+			}
+			pubByClose = true
+			published[dev] = true
+			if M.And(g, M.Not(w.seenCancel)) != bdd.False {
+				rs.watch = append(rs.watch, pos+": the channel Run polls ("+dev+") is closed or posted on by the goroutine on a path on which it has not seen the context done")
+			}
+			if M.And(w.seenCancel, M.Not(g)) != bdd.False {
+				rs.watch = append(rs.watch, pos+": on some path the goroutine sees the context done and neither closes nor posts on the channel Run polls ("+dev+")")
+			}
+			if at, bad := w.storeAfterClose[dev]; bad {
+				rs.race = append(rs.race, at+": a shared cell is written after the channel Run polls was closed: Run can read it before it is written (data race)")
+			}
+		}
+		if !w.sawPub && !pubByClose {
+			rs.watch = append(rs.watch, w.pos+": the goroutine never publishes the cancellation (no atomic store, no close of a channel Run polls)")
+		}
+	}
+	for dev, pos := range polled {
+		closedBySomeone := false
+		for _, w := range watchers {
+			if _, ok := w.closes[dev]; ok {
+				closedBySomeone = true
+			}
+			if _, ok := w.sends[dev]; ok {
+				closedBySomeone = true
+			}
+		}
+		if !closedBySomeone {
+			rs.watch = append(rs.watch, pos+": Run polls "+dev+", which no goroutine closes or posts on")
+		}
+	}
 	// hand-off, run side
 	if rs.hasWatcher {
 		for cell := range published {
@@ -577,20 +911,163 @@ func runSemPass1(cx *Ctx, carried []absint.CarriedLoc) (rs *runSem, changed []ab
 				rs.race = append(rs.race, "Run reads "+pl.root+", which the goroutine writes, on a path that has not observed the published flag (unsynchronised read)")
 			}
 		}
-		// no leak: the derived context is cancelled on every return
-		covered := bdd.False
+		// Run itself must not write the published cell once the goroutine exists
+		// (a reset of the flag can lose a cancellation)
+		started := false
 		for i := range tr.Events {
-			if e := &tr.Events[i]; e.Kind == "deferred:cancel" {
-				covered = M.Or(covered, e.Guard)
+			e := &tr.Events[i]
+			switch {
+			case e.Kind == "go" || e.Kind == "afterfunc":
+				started = true
+			case started && strings.HasPrefix(e.Kind, "atomic.store") && (published[e.Dev] || atomLoaded[e.Dev]):
+				rs.race = append(rs.race, e.Pos+": Run itself stores to the published cell "+e.Dev+" after the goroutine has started (a cancellation can be lost)")
 			}
 		}
-		for _, rt := range in.TopReturns {
-			if !rs.goStarted {
-				break // registered with context.AfterFunc only: no goroutine exists while waiting
+		// no leak: whatever ends the goroutine's wait (the derived context's
+		// cancellation, the close of a channel it selects on) happens on every return
+		// on which the goroutine was started
+		trigger := func(w *watcherInfo, upTo int) bdd.Node {
+			covered := bdd.False
+			for i := range tr.Events {
+				if upTo >= 0 && i >= upTo {
+					break
+				}
+				e := &tr.Events[i]
+				switch {
+				case e.Kind == "deferred:cancel" && w.releaseByCancel:
+					covered = M.Or(covered, e.Guard)
+				case e.Kind == "chan.close":
+					for _, r := range w.release {
+						if r == e.Dev {
+							covered = M.Or(covered, e.Guard)
+						}
+					}
+				}
 			}
-			if M.And(rt.Pred, M.Not(covered)) != bdd.False {
-				rs.leak = append(rs.leak, "Run can return without cancelling the context its goroutine waits on (the derived context's CancelFunc is not run on every return): the goroutine is left behind")
-				break
+			return covered
+		}
+		for _, w := range watchers {
+			if !w.goroutine {
+				continue // registered with context.AfterFunc only: no goroutine exists while waiting
+			}
+			covered := trigger(w, -1)
+			for _, rt := range in.TopReturns {
+				if M.And(M.And(M.And(rt.Pred, notBack), w.goGuard), M.Not(covered)) != bdd.False {
+					what := "cancelling the context its goroutine waits on (the derived context's CancelFunc is not run on every return)"
+					if len(w.release) > 0 {
+						what = "closing the channel that ends its goroutine (" + strings.Join(w.release, ", ") + ") or " + what
+					}
+					rs.leak = append(rs.leak, "Run can return without "+what+": the goroutine is left behind")
+					break
+				}
+			}
+		}
+		// closes: Run closes a channel at most once, and never one the goroutine closes
+		closed := map[string]bdd.Node{}
+		for i := range tr.Events {
+			e := &tr.Events[i]
+			if e.Kind != "chan.close" {
+				continue
+			}
+			if M.And(e.Guard, closed[e.Dev]) != bdd.False {
+				rs.watch = append(rs.watch, e.Pos+": Run can close "+e.Dev+" twice (panic)")
+			}
+			closed[e.Dev] = M.Or(closed[e.Dev], e.Guard)
+			for _, w := range watchers {
+				if _, both := w.closes[e.Dev]; both {
+					rs.watch = append(rs.watch, e.Pos+": "+e.Dev+" is closed by Run and by the goroutine (panic)")
+				}
+			}
+			isRelease := false
+			for _, w := range watchers {
+				for _, r := range w.release {
+					isRelease = isRelease || r == e.Dev
+				}
+			}
+			if !isRelease {
+				rs.watch = append(rs.watch, e.Pos+": Run closes "+e.Dev+", which no goroutine waits on (outside the protocol)")
+			}
+		}
+		// waits: Run may wait for the goroutine to be gone, after it has told it to go
+		for i := range tr.Events {
+			e := &tr.Events[i]
+			switch e.Kind {
+			case "chan.recv", "wg.wait":
+				if e.Kind == "chan.recv" && !strings.HasPrefix(e.Dev, "chan#") {
+					rs.watch = append(rs.watch, e.Pos+": Run blocks on "+e.Dev)
+					continue
+				}
+				okWait := false
+				for _, w := range watchers {
+					sig := w.closes[e.Dev]
+					if e.Kind == "wg.wait" {
+						sig = w.wgDone[e.Dev]
+					}
+					if _, has := w.closes[e.Dev]; e.Kind == "chan.recv" && !has {
+						continue
+					}
+					if _, has := w.wgDone[e.Dev]; e.Kind == "wg.wait" && !has {
+						continue
+					}
+					switch {
+					case M.And(w.goGuard, M.Not(sig)) != bdd.False:
+						rs.leak = append(rs.leak, e.Pos+": Run waits for a signal the goroutine does not give on every one of its paths: Run can hang")
+					case M.And(e.Guard, M.Not(w.goGuard)) != bdd.False:
+						rs.leak = append(rs.leak, e.Pos+": Run waits for the goroutine to exit on a path on which none was started: Run hangs")
+					case M.And(e.Guard, M.Not(trigger(w, i))) != bdd.False:
+						rs.leak = append(rs.leak, e.Pos+": Run waits for the goroutine to exit before it has told it to: Run hangs until the caller cancels")
+					default:
+						okWait = true
+					}
+				}
+				if !okWait {
+					rs.leak = append(rs.leak, e.Pos+": Run blocks ("+e.Kind+" "+e.Dev+") on something no goroutine is shown to signal on all its paths")
+				}
+			case "wg.add":
+				// one Add(1) per goroutine, on exactly the paths that start it
+				okAdd := false
+				if k, isc := e.Args[0].IsConst(); isc && k == 1 {
+					for _, w := range watchers {
+						if _, has := w.wgDone[e.Dev]; has && w.goGuard == e.Guard {
+							okAdd = true
+						}
+					}
+				}
+				if !okAdd {
+					rs.leak = append(rs.leak, e.Pos+": WaitGroup.Add is not matched by exactly one goroutine that calls Done (Wait can hang or the counter go negative)")
+				}
+			case "wg.done", "chan.send":
+				rs.watch = append(rs.watch, e.Pos+": "+e.Kind+" in Run (outside the protocol)")
+			case "select":
+				rs.watch = append(rs.watch, e.Pos+": blocking select in Run (outside the protocol)")
+			}
+		}
+		for _, w := range watchers {
+			for dev := range w.wgDone {
+				n := 0
+				for i := range tr.Events {
+					if e := &tr.Events[i]; e.Kind == "wg.add" && e.Dev == dev {
+						n++
+					}
+				}
+				if n != 1 {
+					rs.leak = append(rs.leak, fmt.Sprintf("%s: the goroutine calls Done on a WaitGroup Run adds to %d times (exactly one Add(1) expected)", w.pos, n))
+				}
+			}
+			for _, p := range w.selects {
+				rs.okSelects[p] = true
+			}
+			for _, p := range w.sendPos {
+				rs.okSelects[p] = true
+			}
+			// a channel the goroutine sends on is closed by nobody (a send on a closed channel panics)
+			for dev := range w.sends {
+				if _, c1 := w.closes[dev]; c1 {
+					rs.watch = append(rs.watch, w.pos+": the goroutine sends on and closes "+dev+" (panic)")
+				}
+				if _, c2 := closed[dev]; c2 {
+					rs.watch = append(rs.watch, w.pos+": Run closes "+dev+", on which the goroutine sends (panic)")
+				}
 			}
 		}
 	}
@@ -640,6 +1117,34 @@ func runSemPass1(cx *Ctx, carried []absint.CarriedLoc) (rs *runSem, changed []ab
 			if !okv {
 				rs.violations = append(rs.violations, "Run changes CPU."+p+" itself before it returns ("+c.Describe(bv)+")")
 			}
+		}
+	}
+	// ... and that holds for the fields that are not integers as well (the pending
+	// request, the attachments, the handlers, the breakpoint set) and for what
+	// they point to: whatever Run has stored there by the time it returns is the
+	// value that was there
+	intLeaf := map[string]bool{}
+	for _, p := range paths {
+		intLeaf[p] = true
+	}
+	for _, rt := range in.TopReturns {
+		if rt.State == nil || rt.Pred == bdd.False {
+			continue
+		}
+		for _, k := range rt.State.Keys() {
+			root, path := absint.SplitKey(k)
+			if !(root == "cpu" && !intLeaf[path]) && !(strings.HasPrefix(root, "*") && !strings.HasPrefix(root, "*atomic.Pointer")) {
+				continue
+			}
+			v, _ := rt.State.Get(root, path)
+			if iv, ok := in.InitValueOf(root, path); ok && absint.SameValue(v, iv) {
+				continue
+			}
+			what := "CPU." + path
+			if root != "cpu" {
+				what = "(" + root + ")." + path
+			}
+			rs.violations = append(rs.violations, "Run itself changes "+what+" before it returns (a pending request, an attachment, a handler or the breakpoint set is not what the last Step left)")
 		}
 	}
 	// 3. inside the loop the CPU is changed by Step only
@@ -692,3 +1197,7 @@ func boolInt(b bool) int {
 	}
 	return 0
 }
+
+// callersCtx: the symbolic name of the context Run was given, or of one derived
+// from it with context.WithCancel.
+func callersCtx(sym string) bool { return sym == "ctx" || sym == "ctx.derived" }
